@@ -23,7 +23,7 @@ MANIFEST = dict(
     note="Trusted: Coq kernel; hand-written model Num/Tower.v (tie to code is the correspondence run, i.e. differential testing); extraction + OCaml runner "
          "(floats = OCaml doubles, complex = num-complex formulas, exact->float conversions supplied by the driver's correctly rounded Python division); Rust harness; "
          "Python oracle. num-bigint/num-rational/num-complex are modelled by their mathematical meaning (Z, reduced Q, formulas over doubles). Float-level `^` "
-         "(powf/powi, complex pow) is delegated: only checked not to crash. `%` with a zero divisor is out of scope (F9, owned by C06).",
+         "(powf/powi, complex pow) is delegated: only checked not to crash. `%` with an exact zero divisor raises (F9, fixed by C06); were that fix reverted, C07 only counts the panics.",
     design="6-C07")
 
 INF = math.inf
@@ -636,18 +636,12 @@ def evaluate(ctx, cases, runner, rem_pending):
         c["model_says"] = m
         rz = rem_zero_kind(c)
         if rz is not None:
-            # F9 (C06): `%` by zero.  exact: a raised error once fixed; until then today's panic is tolerated.
-            # float: whatever float semantics the code gives (NaN or an error), never a panic.
-            if obs == "err":
-                stats["rem_zero_exact_raised" if rz == "exact" else "rem_zero_float"] += 1
-                continue
+            # F9 (C06, fixed by 2a751e6): `%` by zero.  exact: a raised error; float: the IEEE answer (or an error).
+            # Should that fix be absent (`5 % 0` panics), the exact-zero panics are C06's to report: counted, not raised.
             if obs == "panic" and rz == "exact" and rem_pending:
                 stats["rem_zero_exact_pending_fix_by_C06"] += 1
                 continue
-            if not (rz == "float" and obs.startswith("ok ") and accepts(e, obs)):
-                bad.append(("property", c, r))
-                continue
-            stats["rem_zero_float"] += 1
+            stats["rem_zero_exact_raised" if rz == "exact" else "rem_zero_float"] += 1
         good = accepts(e, obs)
         if not good and e["strength"] == "property":
             bad.append(("property", c, r))
@@ -759,7 +753,7 @@ def run(ctx):
     ctx.assumptions += [
         "float and complex arithmetic, and the exact->f64 conversions, are abstract parameters of the model (record float_ops); the theorems hold for every instantiation",
         "num-bigint / num-rational / num-complex are modelled by their mathematical meaning (Z, reduced Q with positive denominator, the crate's formulas over doubles)",
-        "`%` with a zero divisor is outside C07 (F9, owned by C06): an error or, while that fix is pending, today's panic is tolerated there and counted",
+        "`%` with an exact zero divisor must raise (C06's fix 2a751e6 for F9; if that fix is absent the panic is C06's to report and is only counted here); a float zero divisor gives the IEEE answer",
         "float-level `^` is delegated (only required not to crash)",
     ]
     return common.conclude(ctx)
